@@ -463,6 +463,9 @@ def restore_checkpoint(path: str, model: nnx.Module) -> nnx.Module:
     import orbax.checkpoint as ocp
 
     checkpointer = ocp.PyTreeCheckpointer()
-    state = checkpointer.restore(path)
-    graphdef, _ = nnx.split(model)
+    # restore into the structure of the model's own state: without a target,
+    # list indices come back as string keys whose order ('10' < '2') permutes
+    # the layers of modules with more than ten list entries
+    graphdef, target = nnx.split(model)
+    state = checkpointer.restore(path, item=target)
     return nnx.merge(graphdef, state)
